@@ -74,15 +74,16 @@ theorem C17_v1_fee_bounds {env : Env} (he : EnvNonneg env) {tok : String} {u f :
 
 /-! ### mint / redeem formulas with the contract's round-down steps -/
 
-/-- **minted GLP = price × amount after fee / value per share, rounded down three times** (to USDG wei before and
-    after the fee, to GLP wei at the end): `⌊ ⌊(a − a·fee/10⁴)·10^dec·P/10³⁰⌋ · supply / ⌊aum/10¹²⌋ ⌋ / 10¹⁸`, where the fee
-    is the fee rule evaluated at `⌊a·10^dec·P/10³⁰⌋`; the wallet is debited `a` and the holding grows by exactly that. -/
+/-- **minted GLP = price × amount after fee / value per share, with the contract's round-down steps**: with
+    `usdg x = ⌊⌊x·10^dec·P/10³⁰⌋·10¹⁸/10^dec⌋` (token wei × price rounded down, adjusted to USDG's 18 decimals, rounded down),
+    the result is `⌊ usdg(a − a·fee/10⁴) · supply / ⌊aum/10¹²⌋ ⌋ / 10¹⁸`, where the fee is the fee rule evaluated at `usdg a`;
+    the wallet is debited `a` and the holding grows by exactly the result. -/
 theorem C17_v1_mint_round_down {env : Env} (he : EnvPos env) {s s' : State} {tok : String} {dec : Nat} {a g : Rat}
     (h : buyGlp NumCtx.exact env s tok dec a = (.ok g, s')) :
     ∃ r fee br, env.row? tok = some r ∧
-      feeBps NumCtx.exact env tok ((⌊a * 10 ^ dec * r.price / 10 ^ 30⌋ : Int) : Rat) true = .ok (fee, br) ∧
-      g = ((⌊((⌊(a - a * fee / 10000) * 10 ^ dec * r.price / 10 ^ 30⌋ : Int) : Rat) * env.glpSupply
-              / ((⌊env.aum / 10 ^ 12⌋ : Int) : Rat)⌋ : Int) : Rat) / 10 ^ 18 ∧
+      let usdg : Rat → Rat := fun x => ((⌊((⌊x * 10 ^ dec * r.price / 10 ^ 30⌋ : Int) : Rat) * 10 ^ 18 / 10 ^ dec⌋ : Int) : Rat)
+      feeBps NumCtx.exact env tok (usdg a) true = .ok (fee, br) ∧
+      g = ((⌊usdg (a - a * fee / 10000) * env.glpSupply / ((⌊env.aum / 10 ^ 12⌋ : Int) : Rat)⌋ : Int) : Rat) / 10 ^ 18 ∧
       s'.glp = s.glp + g ∧
       Wallet.debit NumCtx.exact s.wallet (walletKey tok) a false = .ok s'.wallet := by
   obtain ⟨ha, mint, fee, br, w, hadd, hw, hg, hs⟩ := Gmx.buyGlp_ok h
@@ -91,28 +92,35 @@ theorem C17_v1_mint_round_down {env : Env} (he : EnvPos env) {s s' : State} {tok
   obtain ⟨hf0, hf1⟩ := feeBps_bounds he.toEnvNonneg hfee
   obtain ⟨haf0, _⟩ := afterFee_bounds ha hf0 hf1
   have hA : 0 < aumU env := lt_of_le_of_ne (Gmx.aumU_nonneg he) (Ne.symm haum)
-  have hx : 0 ≤ a * 10 ^ dec * r.price / 10 ^ 30 := by positivity
-  have hy : 0 ≤ afterFee NumCtx.exact a fee * 10 ^ dec * r.price / 10 ^ 30 := by positivity
+  -- `usdgOf` is the double floor for non-negative amounts
+  have husdg : ∀ x : Rat, 0 ≤ x → usdgOf x dec r.price
+      = ((⌊((⌊x * 10 ^ dec * r.price / 10 ^ 30⌋ : Int) : Rat) * 10 ^ 18 / 10 ^ dec⌋ : Int) : Rat) := by
+    intro x hx
+    have h1 : 0 ≤ x * 10 ^ dec * r.price / 10 ^ 30 := by positivity
+    unfold usdgOf
+    have h2 := quantDown0_nonneg h1
+    rw [quantDown0_eq_floor (by positivity), quantDown0_eq_floor h1]
   have hz : 0 ≤ usdgOf (afterFee NumCtx.exact a fee) dec r.price * env.glpSupply / aumU env := by
-    have := quantDown0_nonneg hy
+    have := usdgOf_nonneg (dec := dec) haf0 (le_of_lt hP)
     have := he.glpSupply
-    unfold usdgOf; positivity
+    positivity
   refine ⟨r, fee, br, hr, ?_, ?_, by rw [hs], by rw [hs]; exact hw⟩
-  · have : usdgOf a dec r.price = ((⌊a * 10 ^ dec * r.price / 10 ^ 30⌋ : Int) : Rat) := quantDown0_eq_floor hx
-    rw [← this]; exact hfee
-  · rw [hg, hmint, quantDown0_eq_floor hz]
-    unfold usdgOf aumU
-    rw [quantDown0_eq_floor hy, quantDown0_eq_floor (div_nonneg he.aum (by positivity)), afterFee_eq]
+  · simp only []; rw [← husdg a ha]; exact hfee
+  · simp only []
+    rw [hg, hmint, quantDown0_eq_floor hz, ← afterFee_eq, ← husdg _ haf0]
+    unfold aumU
+    rw [quantDown0_eq_floor (div_nonneg he.aum (by positivity))]
 
-/-- **redeemed tokens = USDG value of the GLP (rounded down to USDG wei) / price, minus the fee**:
-    `U / (P/10³⁰) · (1 − fee/10⁴) / 10^dec` with `U = ⌊g·10¹⁸/supply · ⌊aum/10¹²⌋⌋`; the holding shrinks by `g`, the wallet is
-    credited the result. -/
+/-- **redeemed tokens = USDG value of the GLP (rounded down to USDG wei) / price, adjusted to the token's decimals, minus
+    the fee**: `R · (1 − fee/10⁴) / 10^dec` with `R = U / (P/10³⁰) · 10^dec / 10¹⁸` and `U = ⌊g·10¹⁸/supply · ⌊aum/10¹²⌋⌋`; the holding
+    shrinks by `g`, the wallet is credited the result. -/
 theorem C17_v1_redeem_round_down {env : Env} (he : EnvPos env) {s s' : State} {tok : String} {dec : Nat} {ga out : Rat}
     (h : sellGlp NumCtx.exact env s tok dec ga = (.ok out, s')) :
     let g := if ga = 0 then s.glp else ga
     let U : Rat := ((⌊g * 10 ^ 18 / env.glpSupply * ((⌊env.aum / 10 ^ 12⌋ : Int) : Rat)⌋ : Int) : Rat)
     ∃ r fee br, env.row? tok = some r ∧ feeBps NumCtx.exact env tok U false = .ok (fee, br) ∧
-      out = (U / (r.price / 10 ^ 30) - U / (r.price / 10 ^ 30) * fee / 10000) / 10 ^ dec ∧
+      (let R := U / (r.price / 10 ^ 30) * 10 ^ dec / 10 ^ 18
+       out = (R - R * fee / 10000) / 10 ^ dec) ∧
       0 ≤ g ∧ g ≤ s.glp ∧ s'.glp = s.glp - g ∧
       s'.wallet = Wallet.credit NumCtx.exact s.wallet (walletKey tok) out := by
   intro g U
@@ -128,6 +136,7 @@ theorem C17_v1_redeem_round_down {env : Env} (he : EnvPos env) {s s' : State} {t
     rw [quantDown0_eq_floor (div_nonneg he.aum (by positivity))]
   rw [hU] at hfee hout
   refine ⟨r, fee, br, hr, hfee, ?_, hg0, hgle, by rw [hs], by rw [hs]⟩
+  simp only []
   rw [hout, afterFee_eq]
 
 /-- **same-bar round trip**: buying GLP with `a` tokens and selling any part `g' ≤ g` of the minted GLP for the same
@@ -153,9 +162,8 @@ theorem C17_v1_roundtrip_no_profit {env : Env} (he : EnvPos env) {s s1 s2 : Stat
   set af := afterFee NumCtx.exact a fee with haf
   have hd : (0 : Rat) < 10 ^ dec := by positivity
   -- USDG minted
-  have hx0 : 0 ≤ af * 10 ^ dec * r.price / 10 ^ 30 := by positivity
-  have hU : usdgOf af dec r.price ≤ af * 10 ^ dec * r.price / 10 ^ 30 := quantDown0_le hx0
-  have hU0 : 0 ≤ usdgOf af dec r.price := quantDown0_nonneg hx0
+  have hU : usdgOf af dec r.price ≤ af * (r.price / 10 ^ 30) * 10 ^ 18 := usdgOf_le haf0 (le_of_lt hP)
+  have hU0 : 0 ≤ usdgOf af dec r.price := usdgOf_nonneg haf0 (le_of_lt hP)
   -- GLP minted (wei)
   have hm0 : 0 ≤ usdgOf af dec r.price * env.glpSupply / aumU env := by positivity
   have hM : mint ≤ usdgOf af dec r.price * env.glpSupply / aumU env := by rw [hmint]; exact quantDown0_le hm0
@@ -176,17 +184,24 @@ theorem C17_v1_roundtrip_no_profit {env : Env} (he : EnvPos env) {s s1 s2 : Stat
           apply mul_le_mul_of_nonneg_right _ (le_of_lt hA)
           exact div_le_div_of_nonneg_right hM (le_of_lt hS)
       _ = usdgOf af dec r.price := by field_simp
-  -- tokens paid out
+  -- tokens paid out (token wei)
   have hpp : (0 : Rat) < r.price / 10 ^ 30 := by positivity
-  have hred0 : 0 ≤ U' / (r.price / 10 ^ 30) := by positivity
+  set R := U' / (r.price / 10 ^ 30) * 10 ^ dec / 10 ^ 18 with hR
+  have hred0 : 0 ≤ R := by positivity
   obtain ⟨_, hout1⟩ := afterFee_bounds hred0 hf0' hf1'
-  have hred : U' / (r.price / 10 ^ 30) ≤ af * 10 ^ dec := by
-    rw [div_le_iff₀ hpp]
-    calc U' ≤ usdgOf af dec r.price := hchain
-      _ ≤ af * 10 ^ dec * r.price / 10 ^ 30 := hU
-      _ = af * 10 ^ dec * (r.price / 10 ^ 30) := by ring
-  calc out = afterFee NumCtx.exact (U' / (r.price / 10 ^ 30)) fee' / 10 ^ dec := hout
-    _ ≤ (U' / (r.price / 10 ^ 30)) / 10 ^ dec := div_le_div_of_nonneg_right hout1 (le_of_lt hd)
+  have hred : R ≤ af * 10 ^ dec := by
+    have h2 : U' / (r.price / 10 ^ 30) ≤ af * 10 ^ 18 := by
+      rw [div_le_iff₀ hpp]
+      calc U' ≤ usdgOf af dec r.price := hchain
+        _ ≤ af * (r.price / 10 ^ 30) * 10 ^ 18 := hU
+        _ = af * 10 ^ 18 * (r.price / 10 ^ 30) := by ring
+    calc R = U' / (r.price / 10 ^ 30) * 10 ^ dec / 10 ^ 18 := hR
+      _ ≤ af * 10 ^ 18 * 10 ^ dec / 10 ^ 18 := by
+          apply div_le_div_of_nonneg_right _ (by positivity)
+          exact mul_le_mul_of_nonneg_right h2 (le_of_lt hd)
+      _ = af * 10 ^ dec := by field_simp
+  calc out = afterFee NumCtx.exact R fee' / 10 ^ dec := hout
+    _ ≤ R / 10 ^ dec := div_le_div_of_nonneg_right hout1 (le_of_lt hd)
     _ ≤ (af * 10 ^ dec) / 10 ^ dec := div_le_div_of_nonneg_right hred (le_of_lt hd)
     _ = af := by field_simp
     _ ≤ a := haf1
@@ -261,11 +276,10 @@ theorem C17_v1_holding_nonneg {env : Env} (he : EnvPos env) (s : State) (op : Op
         obtain ⟨hf0, hf1⟩ := feeBps_bounds he.toEnvNonneg hfee
         obtain ⟨haf0, _⟩ := afterFee_bounds ha hf0 hf1
         have hA : 0 < aumU env := lt_of_le_of_ne (Gmx.aumU_nonneg he) (Ne.symm haum)
-        have hy : 0 ≤ afterFee NumCtx.exact a fee * 10 ^ dec * r.price / 10 ^ 30 := by positivity
-        have hU := quantDown0_nonneg hy
+        have hU := usdgOf_nonneg (dec := dec) haf0 (le_of_lt hP)
         have hz : 0 ≤ usdgOf (afterFee NumCtx.exact a fee) dec r.price * env.glpSupply / aumU env := by
           have := he.glpSupply
-          unfold usdgOf; positivity
+          positivity
         have hm : 0 ≤ mint := by rw [hmint]; exact quantDown0_nonneg hz
         have : 0 ≤ g := by rw [hg]; positivity
         rw [hs']; simp only []; linarith
